@@ -99,6 +99,18 @@ CHECKS: dict[str, dict] = {
         technique="TLC-enumerated derivations with ghost oracle, every terminal state replayed into the real analysis",
         ref="5-C01",
     ),
+    "C04": dict(
+        engine="spec/Edits.tla, spec/EditTrace.tla, spec/Program.tla",
+        text="Edits.tla states what must be reported for an edited text as a function of what is reported for the base text (Shift) and enumerates edit "
+             "scripts (simultaneous insertions of blank / whitespace-only / comment-only lines in every comment style, trailing comments, trailing "
+             "whitespace) over abstract points; the points are bound to token-safe positions (decided from the raw Pygments stream) of rendered canonical "
+             "programs in all 7 languages and of the vendored real-world corpus; TLC accepts every (base scan, script, edited scan) triple (EditTrace.tla): "
+             "same functions, names, order, lengths, each line number shifted by the number of lines inserted above it.",
+        note="Metamorphic (the base list is what the code reports); an edit that changes the non-comment token stream is skipped and counted; not exhaustive "
+             "over positions in the quick tier (sampled, stratified), every safe boundary once in the thorough tier. " + BASE_NOTE,
+        technique="TLC-enumerated edit scripts bound to real files + TLC trace acceptance of the metamorphic relation",
+        ref="5-C04",
+    ),
 }
 
 NOT_YET = "check not built yet in this round (see DESIGN.md section 10 for the order of work)"
